@@ -26,7 +26,7 @@ RULE = (
     "unicode, surrogate-escaped bytes, leading/trailing blanks; timestamps at the year limits with offsets; grouped "
     "records) written by the real writer under options fields / exclude (lists, comma strings, URI query; unknown, "
     "repeated and metadata names) x lineterminator {default,\\n,\\r\\n,\\r} x verbose x format templates (known and "
-    "unknown keys, conversions, format specs, escaped braces, the documented \\t \\n \\r escapes mixed with other backslash sequences, a trailing backslash and non-ASCII / surrogate-escaped literal text, given as keyword argument or text://...?format_spec= query); csvread = a CSV file (harness-written with delimiter "
+    "unknown keys, conversions, format specs, escaped braces, expression fields (attribute / index access, nested format specs, conversions on them, on unknown keys too), the documented \\t \\n \\r escapes mixed with other backslash sequences, a trailing backslash and non-ASCII / surrogate-escaped literal text, given as keyword argument or text://...?format_spec= query); csvread = a CSV file (harness-written with delimiter "
     ", ; TAB | x terminator, or written by CsvfileWriter) with safe cells read through RecordReader('csvfile://').  "
     "Non-trivial = at least one record rendered / read; distinct = distinct (kind, option set, type shapes, sub-seed).  "
     "Oracle: written bytes decoded with surrogateescape; CSV parsed by csv.reader (excel dialect) == header row per run "
@@ -41,7 +41,7 @@ ASSUMPTIONS = [
     "the process encoding is UTF-8 (the CSV writer opens its file with the locale encoding)",
     "the column / line order of a grouped record's flat view is not pinned (compared as a mapping); for plain records the order is the descriptor's or the fields option's",
     "field names equal to GroupedRecord's own attributes (name, records, ...) are not generated here (C15 known finding)",
-    "format templates use plain {key}, {key!r}, {key:spec}; a spec Python's format() refuses for the value makes the case undefined; attribute/index access is not generated",
+    "format templates use plain {key}, {key!r}, {key:spec}; {key.attr}, {key[i]}, nested specs {key:>{other}} and conversions on them (expression templates over one type with path, digest, uri, datetime, typed-list, bytes, command, string and integer fields); the reference is the stdlib's pure-Python string.Formatter over a mapping whose missing keys read as '{key}'; a template Python itself refuses for the values (bad spec, attribute of None, index out of range, attribute of an unknown key) makes the case undefined and is skipped (counted)",
     "in a template exactly the writer's three documented two-character escapes (backslash r, n, t) are translated, over the whole template and before formatting; every other backslash sequence, a trailing backslash and non-ASCII / surrogate-escaped literal text come out unchanged; field VALUES containing such sequences are never translated",
     "format_spec is passed as keyword argument, percent-quoted URI query or raw URI query (raw only without & # + % TAB CR LF, surrounding blanks; a surrogate-escaped literal only as keyword argument because the URI parser cannot carry undecodable bytes)",
     "CSV read-back is restricted to unambiguous content: >= 2 columns, >= 1 data row, cells without delimiter candidates, quotes, blanks or line breaks, file < 1000 characters, and the standard csv.Sniffer on the whole text identifies the delimiter used (otherwise the case is skipped and counted)",
@@ -581,13 +581,111 @@ def make_template(rng, names, values, types):
     return "".join(parts), info
 
 
+# replacement fields that are EXPRESSIONS: attribute / index access, nested format specs, conversions on them
+EXPR_FIELDS = [("path", "path"), ("digest", "digest"), ("uri", "uri"), ("datetime", "ts"), ("string[]", "tags"), ("bytes", "blob"),
+               ("command", "cmd"), ("string", "name"), ("varint", "width"), ("string", "fill"), ("string", "align"), ("varint", "n"),
+               ("varint[]", "nums"), ("path[]", "paths")]
+EXPR_FORMS = {
+    "path": ["{path.name}", "{path.parent}", "{path.parent!r}", "{path.suffix}", "{path.stem:>12}", "{path.parts[0]}", "{path.parent.name}", "{path.name!r:<20}"],
+    "digest": ["{digest.md5}", "{digest.sha1}", "{digest.sha256!r}", "{digest.sha1!s:>44}"],
+    "uri": ["{uri.hostname}", "{uri.scheme}", "{uri.path}", "{uri.filename}", "{uri.netloc!r}", "{uri.port}", "{uri.query:>10}"],
+    "ts": ["{ts.year}", "{ts.month:02d}", "{ts.year:04d}-{ts.day:02d}", "{ts.microsecond:06d}", "{ts.year!r}"],
+    "tags": ["{tags[0]}", "{tags[1]!r}", "{tags[0]:>8}", "{tags[0][0]}", "{tags[1]:{fill}{align}{width}}"],
+    "blob": ["{blob[0]}", "{blob[1]:x}", "{blob[0]:03d}", "{blob[0]!r}"],
+    "cmd": ["{cmd.executable}", "{cmd.args}", "{cmd.args[0]}", "{cmd.executable.name}", "{cmd.executable!r}"],
+    "name": ["{name[0]}", "{name:>{width}}", "{name:{fill}{align}{width}}", "{name:{fill}{align}10}", "{name!r:>{width}}", "{name:.{width}}"],
+    "n": ["{n:{fill}{align}10}", "{n:0{width}d}", "{n:>{width}}", "{n:{fill}>{width}x}"],
+    "nums": ["{nums[0]}", "{nums[0]:{fill}>{width}}", "{nums[1]:d}"],
+    "paths": ["{paths[0].name}", "{paths[0].parent!r}"],
+    "?": ["{nope[0]}", "{nope[1]}{nope[2]}", "{nope.attr}", "{nope[0]:>{width}}", "{missing_key!r}", "{nope[0]!r}", "{x9:>{nope}}"],
+}
+
+
+def make_expression_case(rng, mk):
+    """-> (records of one type with attribute/item-bearing fields, template, info)."""
+    from flow.record import RecordDescriptor
+
+    chosen = rng.sample(EXPR_FIELDS, rng.randint(3, 9))
+    if rng.random() < 0.6:  # the helpers of nested format specs travel together
+        for f in EXPR_FIELDS:
+            if f[1] in ("name", "width", "fill", "align") and f not in chosen:
+                chosen.append(f)
+    mk.ntypes += 1
+    desc = RecordDescriptor("t%d/expr" % mk.ntypes, chosen)
+    records = []
+    for _ in range(rng.choice([1, 2, 3, 4])):
+        kw = {}
+        for t, n in chosen:
+            if rng.random() < 0.04:
+                kw[n] = None
+            elif n == "width":
+                kw[n] = rng.choice([0, 1, 3, 8, 12, 20])
+            elif n == "fill":
+                kw[n] = rng.choice(["*", "_", ".", "0", " ", "é"])
+            elif n == "align":
+                kw[n] = rng.choice(["<", ">", "^"])
+            elif n == "n":
+                kw[n] = rng.choice([0, 5, -17, 255, 123456])
+            elif n == "tags":
+                kw[n] = [mk.hostile_text() if rng.random() < 0.4 else rng.choice(["alpha", "β", "x y"]) for _ in range(rng.choice([1, 2, 2, 3, 3]))]
+            elif n == "nums":
+                kw[n] = [rng.randint(-5, 500) for _ in range(rng.choice([1, 2, 2, 3]))]
+            elif n == "blob":
+                kw[n] = bytes(rng.randrange(256) for _ in range(rng.choice([0, 1, 2, 3, 8])))
+            else:
+                v = None
+                for _ in range(6):
+                    v = mk.value(t)
+                    if v is not None and not (isinstance(v, (str, bytes, list, tuple)) and len(v) == 0):
+                        break
+                kw[n] = v
+        records.append(desc.recordType(**kw))
+    present = [n for _, n in chosen]
+    import re
+
+    def roots(form):
+        return set(re.findall(r"\{([A-Za-z_][A-Za-z_0-9]*)", form))
+
+    usable = [f for k, forms in EXPR_FORMS.items() if k != "?" for f in forms if roots(f) <= set(present)]
+    parts = []
+    info = {"known": 0, "unknown": 0, "spec": 0, "conv": 0, "attr": 0, "index": 0, "nested": 0}
+    for _ in range(rng.randint(1, 5)):
+        if rng.random() < 0.6:
+            parts.append(rng.choice(LITERALS + NONASCII_LITERALS))
+        r = rng.random()
+        if r < 0.12:
+            form = rng.choice(EXPR_FORMS["?"])
+        elif r < 0.17:
+            form = rng.choice(EXPR_FORMS[rng.choice([k for k in EXPR_FORMS if k != "?"])])  # may name a field this type lacks
+        elif r < 0.27 or not usable:
+            form = "{%s}" % rng.choice(present)
+        else:
+            form = rng.choice(usable)
+        parts.append(form)
+        first = form[1:].split("}")[0]
+        head = first.split("!")[0].split(":")[0]
+        root = head.split(".")[0].split("[")[0]
+        info["known" if root in present else "unknown"] += 1
+        info["attr"] += head.count(".")
+        info["index"] += head.count("[")
+        info["nested"] += 1 if ":" in first and "{" in form[1:-1] else 0
+        info["conv"] += form.count("!")
+        info["spec"] += 1 if ":" in form else 0
+    return records, "".join(parts), info
+
+
 def do_text(ctx, case, mk):
     rng = mk.rng
-    records = mk.sequence()
-    before = [observe.obs(r) for r in records]
+    mode = rng.random()
     template = None
     info = None
-    if rng.random() < 0.6:
+    if mode >= 0.78:
+        records, template, info = make_expression_case(rng, mk)
+        before = [observe.obs(r) for r in records]
+    else:
+        records = mk.sequence()
+        before = [observe.obs(r) for r in records]
+    if 0.3 <= mode < 0.78:
         names, values, types, _ = tm.slots_and_values(records[0])
         template, info = make_template(rng, names, values, types)
     opts = {"format_spec": template}
@@ -609,11 +707,13 @@ def do_text(ctx, case, mk):
             except (tm.Undefined, ValueError) as e:
                 undefined = str(e)
                 break
-    ctx.cell("text", "repr" if template is None else "template",
+    ctx.cell("text", "repr" if template is None else ("expression-template" if "attr" in (info or {}) else "template"),
              "-" if not info else ("unknown" if info["unknown"] else "known"), "-" if not info else ("spec" if info["spec"] or info["conv"] else "plain"))
     if undefined is not None:
         # the template is not applicable to one of the records (user error, not the record's): whatever the writer does is open
         ctx.event("text_template_undefined_skipped")
+        if "attr" in (info or {}):
+            ctx.event("text_expression_templates_undefined")
         try:
             w, _ = open_writer(rng, "text", new_path(ctx, "txt"), opts)
             try:
@@ -657,6 +757,11 @@ def do_text(ctx, case, mk):
         if template.endswith("\\"):
             ctx.event("text_templates_with_trailing_backslash")
         ctx.cell("text-template", "escape" if n_esc else "noescape", "backslash" if other_bs else "nobackslash", "nonascii" if nonascii else "ascii")
+        if "attr" in info:
+            ctx.event("text_expression_templates_matched")
+            ctx.event("text_template_attribute_accesses", info["attr"] * len(records))
+            ctx.event("text_template_index_accesses", info["index"] * len(records))
+            ctx.event("text_template_nested_specs", info["nested"] * len(records))
         ctx.event("text_template_known_keys", info["known"] * len(records))
         ctx.event("text_template_unknown_keys", info["unknown"] * len(records))
         ctx.event("text_template_specs", (info["spec"] + info["conv"]) * len(records))
@@ -782,5 +887,6 @@ def finish(ctx):
         ctx.require(ctx.reach.get(q, 0) > 0, "anchor %s was never entered" % q)
     for ev in ("csv_rows_checked", "csv_type_changes", "line_field_lines_matched", "text_records_matched", "text_repr_fields_checked",
                "text_template_unknown_keys", "text_template_escapes_translated", "text_template_backslashes_kept_literal",
-               "text_templates_with_escape_and_nonascii", "csvread_cells_checked", "cell:surrogate", "cell:quote", "cell:comma", "cell:cr", "cell:lf"):
+               "text_templates_with_escape_and_nonascii", "text_expression_templates_matched", "text_template_attribute_accesses",
+               "text_template_index_accesses", "text_template_nested_specs", "csvread_cells_checked", "cell:surrogate", "cell:quote", "cell:comma", "cell:cr", "cell:lf"):
         ctx.require(ctx.events.get(ev, 0) > 0, "monitor / workload class %s never ran" % ev)
